@@ -124,6 +124,7 @@ func OnlyGlobal(x net.IP) bool {
 		if x.IsLinkLocalUnicast() || x.IsLinkLocalMulticast() {
 			return false
 		}
+		return true
 	default:
 		panic("ip is neither v4 nor v6")
 	}
